@@ -230,7 +230,7 @@ fn families(ctx: &Ctx, st: &mut Stats) {
             cases.push((ti, li));
         }
     }
-    st.merge(par_for(ctx, "filter-families", cases.len() as u64, 1, |idx, st| {
+    st.merge(vcore::par_for_replayable(ctx, "filter-families", cases.len() as u64, 1, |idx, st| {
         let (ti, li) = cases[idx as usize];
         let (dt, l) = (&types[ti], lens[li]);
         let alpha = vmodel::alphabet(dt, 6);
@@ -560,7 +560,7 @@ pub fn run(ctx: &Ctx) -> ! {
             }
         }
     }
-    st.merge(par_for(ctx, "kernels", cases.len() as u64, 4, |idx, st| {
+    st.merge(vcore::par_for_replayable(ctx, "kernels", cases.len() as u64, 4, |idx, st| {
         let (ti, col, lay) = &cases[idx as usize];
         let dt = &grid[*ti];
         // second operand: a fixed 2-row column of the same type
@@ -571,6 +571,7 @@ pub fn run(ctx: &Ctx) -> ! {
         }
     }));
     families(ctx, &mut st);
+    let replay_sub = vcore::replay_target(ctx).map(|t| t.0);
 
     // coalescer
     let depth = ctx.pick(4, 6);
@@ -589,11 +590,17 @@ pub fn run(ctx: &Ctx) -> ! {
         }
     }
     // the configurations are independent explorations: run them in parallel, each BFS single-threaded
+    if ctx.replay.is_some() && !replay_sub.as_deref().is_some_and(|s| s.starts_with("coalescer")) {
+        configs.clear();
+    }
     st.merge(par_for(ctx, "coalescer", configs.len() as u64, 1, |i, st| {
         let (schema, target, limit) = configs[i as usize];
         let m = CoalesceModel { target, limit, schema };
         let mut s = Stats::new();
         let label = format!("coalescer-{schema:?}-t{target}-l{limit:?}");
+        if replay_sub.as_deref().is_some_and(|s| s != label) {
+            return;
+        }
         vcore::bfs::explore_with_threads(ctx, 1, &label, &m, depth, true, &mut s);
         s.add("coalescer", s.transitions, s.states);
         // violation order keys must not collide with the kernel part
